@@ -36,8 +36,8 @@ theorem remoteReconcile_events (o : OSet) (ph : PhaseSpec) (w : World) :
     (remoteReconcile o ph w).1.events = w.events := by
   simp only [remoteReconcile]
   split
-  · simp [setPhase, freshRV, freshUID, World.tick]
-  · simp [propagatePause_events]
+  · simp [remoteContinue, propagatePause_events, setPhase, freshRV, freshUID, World.tick]
+  · simp [remoteContinue, propagatePause_events]
 
 theorem remoteTeardown_events (o : OSet) (ph : PhaseSpec) (w : World) :
     (remoteTeardown o ph w).1.events = w.events := by
@@ -57,10 +57,13 @@ theorem create_only_when_absent (o : OSet) (ph : PhaseSpec) (w : World) :
       ∃ b, (remoteReconcile o ph w).1.phaseEvents = w.phaseEvents ++ [.pausePatch (phaseName o ph) b none]) := by
   constructor
   · intro h
-    simp only [remoteReconcile, h]
-    exact ⟨by simp [setPhase, freshRV, freshUID, World.tick], by simp [setPhase, freshRV, freshUID, World.tick]⟩
+    -- the created object already carries the desired pause state: no pause patch follows
+    simp only [remoteReconcile, h, remoteContinue, propagatePause, desiredPhase, ne_eq, not_true_eq_false,
+      ↓reduceIte]
+    exact ⟨by simp [setPhase, freshRV, freshUID, World.tick, desiredPhase],
+           by simp [setPhase, freshRV, freshUID, World.tick]⟩
   · intro cur h
-    simp only [remoteReconcile, h, propagatePause]
+    simp only [remoteReconcile, h, remoteContinue, propagatePause]
     split
     · right; exact ⟨decide (o.lifecycle = .paused), by simp [setPhase, freshRV, World.tick]⟩
     · left; rfl
@@ -86,10 +89,13 @@ theorem available_trusted_only_current_generation (o : OSet) (ph : PhaseSpec) (w
       co = cur.controllerOf := by
   simp only [remoteReconcile] at h
   cases hp : w.phases (phaseName o ph) with
-  | none => rw [hp] at h; simp at h
+  | none =>
+    -- a phase object created in this pass has reported nothing yet
+    rw [hp] at h
+    simp [remoteContinue, propagatePause, desiredPhase, relayStatus, findCond] at h
   | some cur =>
     rw [hp] at h
-    simp only [Except.ok.injEq] at h
+    simp only [remoteContinue, Except.ok.injEq] at h
     have hs := propagatePause_snd o (phaseName o ph) cur
       { w with remoteRefs := addRemote w.remoteRefs (cur.name, cur.uid) }
     simp only [relayStatus, hs.2.1, hs.2.2, hs.1] at h
